@@ -79,6 +79,35 @@ add('C13', 'model_checking',
     'Trusted: qrref stream model (reproduces ISO Annex I bit for bit). One known finding with an exact classifier.',
     'DESIGN.md section 5, C13')
 
+
+add('C08', 'exploration',
+    'bounded-exhaustive enumeration of content families x all lengths up to 16 x capacity x version / symbol_count; every symbol of every sequence decoded by qrref and header, parity, payload and count contracts checked',
+    'All lengths 1..16 x per-symbol capacity (+4) for version 1 at every level, lengths around capacity multiples for larger versions, symbol_count 1..16 x lengths; '
+    'one known finding (version-path symbol-count underestimate, pinned by a baseline test) with an exact classifier that restates the defective formula.',
+    'Trusted: qrref reader; "message bytes" = requested encoding else first of ISO-8859-1 / Shift JIS / UTF-8 for the whole message.',
+    'DESIGN.md section 5, C08')
+add('C12', 'exploration',
+    'bounded-exhaustive enumeration of option subsets per output kind; the document is produced through every route (path x 3 letter cases, stream+kind, named stream, data URIs, svg_inline, svgz, CLI argv) and compared byte for byte',
+    'For 3 symbols + a sequence x 13 kinds x all option subsets up to size k, every route must yield the identical bytes (creation timestamps masked); CLI without -o vs QRCode.terminal; sequence file names; unknown extensions refused.',
+    'Trusted: the API<->CLI flag table in checks/c12.py; quote normalisation of svg_data_uri applied to both sides.',
+    'DESIGN.md section 5, C12')
+add('C14', 'exploration',
+    'bounded-exhaustive enumeration of argument vectors with <= k deviations over domains holding every documented spelling and the malformed values of the statement; outcome-class oracle + decode of accepted symbols; CLI as subprocess',
+    'Every call must return a symbol that decodes to the content or raise ValueError (LookupError exactly for an unknown codec), under a watchdog; documented exclusions must be refused; alternative spellings must give the identical matrix; serialisers must refuse malformed colours / scales / borders / kinds.',
+    'Trusted: the exclusion model in checks/c14.py (restates the statement), qrref reader. Documented argument types only.',
+    'DESIGN.md section 5, C14')
+add('C15', 'model_checking',
+    'explicit-state BFS over call histories of the real library (object-graph state hashing, fork per transition) + all explicit histories up to length n + stateless enumeration of all 2-thread schedules with <= p preemptions under a settrace baton scheduler',
+    'E-hist: every operation of a 47-call menu maps the initial state to itself (reachable state set {S0}, complete for all depths under the canonicaliser) and all ordered pairs (thorough: triples of a core menu) '
+    'reproduce the fresh-interpreter observations; E-sched: all schedules with <= 1 (thorough: 2) preemptions for 9+ thread pairs give the sequential results; idempotence over the C02/C04 configurations.',
+    'Trusted: CPython GIL (no preemption inside C calls), the state canonicaliser (explicit histories do not rely on it). Two threads only.',
+    'DESIGN.md section 5, C15')
+add('C16', 'exploration',
+    'exhaustive enumeration of all strings of length <= n over the delimiter/escape alphabet in every helper text field, field pairs, multi-values, EPC limits +-1; payloads parsed by independent MeCard/vCard/URI/EPC parsers',
+    'Every payload is parsed back by a parser written from the format description and compared with the supplied values; factory symbols are decoded by qrref.',
+    'Trusted: the parsers in checks/c16.py; closed-domain values drawn from their domain.',
+    'DESIGN.md section 5, C16')
+
 ALL = ['C%02d' % i for i in range(1, 17)]
 
 
